@@ -648,6 +648,9 @@ impl FixtureDatabase {
             return false;
         }
         let mut i = def_line_idx - 1;
+        // Closing parentheses met on the way up that have not found their opening one yet:
+        // such lines belong to a decorator call that spans several lines
+        let mut pending: i32 = 0;
         loop {
             let trimmed = lines[i].trim();
             if trimmed.is_empty() {
@@ -658,6 +661,7 @@ impl FixtureDatabase {
                 i -= 1;
                 continue;
             }
+            pending += Self::closing_minus_opening(trimmed);
             if trimmed.starts_with('@') {
                 // Check for @pytest.fixture, @pytest_asyncio.fixture or @fixture
                 // (with optional parens/args)
@@ -667,17 +671,28 @@ impl FixtureDatabase {
                 {
                     return true;
                 }
-                // Another decorator — keep scanning upward
-                if i == 0 {
-                    break;
-                }
-                i -= 1;
-                continue;
+            } else if pending <= 0 {
+                // Hit a non-decorator, non-blank line outside any decorator call — stop
+                break;
             }
-            // Hit a non-decorator, non-blank line — stop
-            break;
+            // Another decorator, or an argument line of one — keep scanning upward
+            if i == 0 {
+                break;
+            }
+            i -= 1;
         }
         false
+    }
+
+    /// Number of `)` minus number of `(` on a line.
+    fn closing_minus_opening(line: &str) -> i32 {
+        line.chars()
+            .map(|c| match c {
+                ')' => 1,
+                '(' => -1,
+                _ => 0,
+            })
+            .sum()
     }
 
     /// Extract the fixture scope from decorator text above a function definition.
@@ -693,8 +708,10 @@ impl FixtureDatabase {
             return None;
         }
 
-        // Scan decorator lines above the def and search each one for scope=
+        // Scan decorator lines above the def (and the argument lines of a decorator call
+        // that spans several lines) and search each one for scope=
         let mut i = def_line_idx - 1;
+        let mut pending: i32 = 0;
         loop {
             let trimmed = lines[i].trim();
             if trimmed.is_empty() {
@@ -704,7 +721,8 @@ impl FixtureDatabase {
                 i -= 1;
                 continue;
             }
-            if trimmed.starts_with('@') {
+            pending += Self::closing_minus_opening(trimmed);
+            if trimmed.starts_with('@') || pending > 0 {
                 // Check this decorator line for scope="..." or scope='...'
                 for pattern in &["scope=\"", "scope='"] {
                     // `scope=` as a keyword of its own, not the tail of another
